@@ -248,7 +248,7 @@ def sim_part(ctx, d):
         batches = [(0, 40000, 400), (1000000, 600, 3000), (2000000, 10, 10000)]
     tot_sched = tot_events = nontriv = 0
     hashes = set()
-    agg = dict(elections=0, commits=0, truncs=0, restarts=0)
+    agg = dict(elections=0, commits=0, truncs=0, restarts=0, compactions=0, snapshots=0)
     maxterm = maxcommit = 0
     samples = []
     viol = None
@@ -310,7 +310,7 @@ def sim_part(ctx, d):
                 pass
     stats = dict(sim_schedules=tot_sched, sim_events=tot_events, sim_distinct_nontrivial=nontriv,
                  sim_distinct=len(hashes), sim_elections=agg["elections"], sim_commit_advances=agg["commits"],
-                 sim_log_truncations=agg["truncs"], sim_restarts=agg["restarts"], sim_max_term=maxterm,
+                 sim_log_truncations=agg["truncs"], sim_restarts=agg["restarts"], sim_compactions=agg["compactions"], sim_snapshots_delivered=agg["snapshots"], sim_max_term=maxterm,
                  sim_max_commit=maxcommit, sim_samples=samples,
                  sim_scope="; ".join("%d schedules x %d events" % (c, n) for _, c, n in batches))
     return stats, viol, None
